@@ -397,22 +397,25 @@ def prodPerm3 (σ0 : Equiv.Perm (Fin n0)) (σ1 : Equiv.Perm (Fin n1)) (σ2 : Equ
 
 variable [Scalar α]
 
-/-- the computation shared by `product2Raw` and `product3Raw` once the three cell tables are built -/
-def rawOf {N : Nat} (p a bb : Tab α N) : Opinion α N :=
+/-- the computation shared by `product2Raw` and `product3Raw` once the cell tables are built; `c k` is the
+    candidate for the joint uncertainty contributed by cell `k` (`prodCand2` / `prodCand3` at the cell's
+    coordinates since repair abca806) -/
+def rawOf {N : Nat} (p a : Tab α N) (c : Fin N → α) : Opinion α N :=
   let u := Tab.reduceL Scalar.min
-    (((List.finRange N).filter fun k => Scalar.gt a[k] Scalar.zero).map fun k => (p[k] - bb[k]) / a[k])
+    (((List.finRange N).filter fun k => Scalar.gt a[k] Scalar.zero).map c)
     (Tab.nanOf α)
   let b : Tab α N := Vector.ofFn fun k => p[k] - a[k] * u
   ⟨b, u, a⟩
 
 theorem product2Raw_eq (w0 : Opinion α n0) (w1 : Opinion α n1) :
     product2Raw w0 w1
-      = rawOf (outer2 w0.projection w1.projection) (outer2 w0.a w1.a) (outer2 w0.b w1.b) := rfl
+      = rawOf (outer2 w0.projection w1.projection) (outer2 w0.a w1.a)
+          (fun k => prodCand2 w0 w1 (idx2 k)) := rfl
 
 theorem product3Raw_eq (w0 : Opinion α n0) (w1 : Opinion α n1) (w2 : Opinion α n2) :
     product3Raw w0 w1 w2
       = rawOf (outer3 w0.projection w1.projection w2.projection) (outer3 w0.a w1.a w2.a)
-          (outer3 w0.b w1.b w2.b) := rfl
+          (fun k => prodCand3 w0 w1 w2 (idx3 k)) := rfl
 
 end joint
 
@@ -687,8 +690,9 @@ theorem maxUncertainty_eqv (σ : Equiv.Perm (Fin n)) (s : Simplex (XQ f) n) (a :
 theorem uncertaintyMaximized_eqv (σ : Equiv.Perm (Fin n)) (s : Simplex (XQ f) n) (a : Tab (XQ f) n) :
     (permS σ s).uncertaintyMaximized (permT σ a) = permS σ (s.uncertaintyMaximized a) := by
   unfold Simplex.uncertaintyMaximized
-  rw [projection_simplex_eqv, maxUncertainty_eqv]
-  simp only [permS, Simplex.mk.injEq, and_true]
+  rw [projection_simplex_eqv, maxUncertainty_eqv, ← normalized_eqv]
+  dsimp only
+  congr 1
   exact ofFn_eq_permT σ (fun i => by simp)
 
 theorem vacuous_eqv (σ : Equiv.Perm (Fin n)) :
@@ -958,21 +962,41 @@ theorem outer3_eqv (σ0 : Equiv.Perm (Fin n0)) (σ1 : Equiv.Perm (Fin n1)) (σ2 
   unfold outer3
   exact ofFn_eq_permT _ (fun k => by simp)
 
-theorem rawOf_perm {N : Nat} (τ : Equiv.Perm (Fin N)) (p a bb : Tab (XQ f) N) :
-    rawOf (permT τ p) (permT τ a) (permT τ bb) = permO τ (rawOf p a bb) := by
+/-- `c'` is the candidate function of the relabelled operands: cell `k` of the relabelled tables is cell
+    `τ k` of the original ones -/
+theorem rawOf_perm {N : Nat} (τ : Equiv.Perm (Fin N)) (p a : Tab (XQ f) N) (c c' : Fin N → XQ f)
+    (hc : ∀ k, c' k = c (τ k)) :
+    rawOf (permT τ p) (permT τ a) c' = permO τ (rawOf p a c) := by
   unfold rawOf
   simp only []
   rw [reduceL_filter_congr Scalar.min xq_min_comm xq_min_assoc τ
-    (p := fun k => Scalar.gt a[k] Scalar.zero) (g := fun k => (p[k] - bb[k]) / a[k])
-    (fun k => by rw [permT_getElem]) (fun k => by simp only [permT_getElem])]
+    (p := fun k => Scalar.gt a[k] Scalar.zero) (g := c)
+    (fun k => by rw [permT_getElem]) hc]
   simp only [permO, Opinion.mk.injEq, and_true]
   exact ofFn_eq_permT τ (fun k => by simp)
+
+/-- the candidate of a cell depends on the operands only through the entries at the cell's coordinates -/
+theorem prodCand2_perm (σ0 : Equiv.Perm (Fin n0)) (σ1 : Equiv.Perm (Fin n1))
+    (w0 : Opinion (XQ f) n0) (w1 : Opinion (XQ f) n1) (k : Fin (n0 * n1)) :
+    prodCand2 (permO σ0 w0) (permO σ1 w1) (idx2 k) = prodCand2 w0 w1 (idx2 (prodPerm σ0 σ1 k)) := by
+  unfold prodCand2
+  simp only [idx2_prodPerm, permO_a, permO_b, permO_u, permT_getElem]
+
+theorem prodCand3_perm (σ0 : Equiv.Perm (Fin n0)) (σ1 : Equiv.Perm (Fin n1))
+    (σ2 : Equiv.Perm (Fin n2))
+    (w0 : Opinion (XQ f) n0) (w1 : Opinion (XQ f) n1) (w2 : Opinion (XQ f) n2)
+    (k : Fin (n0 * n1 * n2)) :
+    prodCand3 (permO σ0 w0) (permO σ1 w1) (permO σ2 w2) (idx3 k)
+      = prodCand3 w0 w1 w2 (idx3 (prodPerm3 σ0 σ1 σ2 k)) := by
+  unfold prodCand3
+  simp only [idx3_prodPerm3, permO_a, permO_b, permO_u, permT_getElem]
 
 theorem product2Raw_eqv (σ0 : Equiv.Perm (Fin n0)) (σ1 : Equiv.Perm (Fin n1))
     (w0 : Opinion (XQ f) n0) (w1 : Opinion (XQ f) n1) :
     product2Raw (permO σ0 w0) (permO σ1 w1) = permO (prodPerm σ0 σ1) (product2Raw w0 w1) := by
   rw [product2Raw_eq, product2Raw_eq]
-  simp only [projection_opinion_eqv, permO_a, permO_b, outer2_eqv, rawOf_perm]
+  simp only [projection_opinion_eqv, permO_a, outer2_eqv]
+  exact rawOf_perm _ _ _ _ _ (prodCand2_perm σ0 σ1 w0 w1)
 
 theorem product3Raw_eqv (σ0 : Equiv.Perm (Fin n0)) (σ1 : Equiv.Perm (Fin n1))
     (σ2 : Equiv.Perm (Fin n2))
@@ -980,7 +1004,8 @@ theorem product3Raw_eqv (σ0 : Equiv.Perm (Fin n0)) (σ1 : Equiv.Perm (Fin n1))
     product3Raw (permO σ0 w0) (permO σ1 w1) (permO σ2 w2)
       = permO (prodPerm3 σ0 σ1 σ2) (product3Raw w0 w1 w2) := by
   rw [product3Raw_eq, product3Raw_eq]
-  simp only [projection_opinion_eqv, permO_a, permO_b, outer3_eqv, rawOf_perm]
+  simp only [projection_opinion_eqv, permO_a, outer3_eqv]
+  exact rawOf_perm _ _ _ _ _ (prodCand3_perm σ0 σ1 σ2 w0 w1 w2)
 
 theorem tryNew_eqv (τ : Equiv.Perm (Fin n)) (b : Tab (XQ f) n) (u : XQ f) (a : Tab (XQ f) n) :
     Opinion.tryNew (permT τ b) u (permT τ a) = (Opinion.tryNew b u a).map (permO τ) := by
